@@ -89,6 +89,7 @@ type Unit struct {
 	probes []modelProbe
 	usedLemmas map[string]bool
 	nonNil map[string]bool
+	sched [][2]string // (k, err) result terms of calls on abstract streams
 }
 
 func (u *Unit) fresh(prefix string) string {
